@@ -332,29 +332,7 @@ public:
 	}
 	
 	~splinetable(){
-		if(ndim){
-			uint64_t ncoeffs=strides[0]*naxes[0];
-			for(uint32_t i=0; i<ndim; i++)
-				deallocate(knots[i]-order[i],nknots[i]+2*order[i]);
-			deallocate(knots,ndim);
-			deallocate(nknots,ndim);
-			deallocate(order,ndim);
-			if(extents){
-				deallocate(extents[0],2*ndim);
-				deallocate(extents,ndim);
-			}
-			if(periods)
-				deallocate(periods,ndim);
-			deallocate(coefficients,ncoeffs);
-			deallocate(naxes,ndim);
-			deallocate(strides,ndim);
-			for(uint32_t i=0; i<naux; i++){
-				deallocate(aux[i][0],strlen(&aux[i][0][0])+1);
-				deallocate(aux[i][1],strlen(&aux[i][1][0])+1);
-				deallocate(aux[i],2);
-			}
-			deallocate(aux,naux);
-		}
+		release_storage();
 	}
 	
 	splinetable& operator=(splinetable&& other){
@@ -840,8 +818,64 @@ private:
 		other_alloc_traits::deallocate(other_alloc,buf,n);
 	}
 	
+	///Return all storage to the allocator and make the table empty.
+	///This tolerates partially constructed tables (as left behind by a read or
+	///fit which failed half way), in which any array which has not yet been
+	///allocated is null.
+	void release_storage(){
+		if(knots){
+			for(uint32_t i=0; i<ndim; i++){
+				if(knots[i])
+					deallocate(knots[i]-order[i],nknots[i]+2*order[i]);
+			}
+			deallocate(knots,ndim);
+		}
+		if(nknots)
+			deallocate(nknots,ndim);
+		if(order)
+			deallocate(order,ndim);
+		if(extents){
+			if(extents[0])
+				deallocate(extents[0],2*ndim);
+			deallocate(extents,ndim);
+		}
+		if(periods)
+			deallocate(periods,ndim);
+		if(coefficients && naxes)
+			deallocate(coefficients,get_ncoeffs());
+		if(naxes)
+			deallocate(naxes,ndim);
+		if(strides)
+			deallocate(strides,ndim);
+		if(aux){
+			for(uint32_t i=0; i<naux; i++){
+				if(!aux[i])
+					continue;
+				if(aux[i][0])
+					deallocate(aux[i][0],strlen(&aux[i][0][0])+1);
+				if(aux[i][1])
+					deallocate(aux[i][1],strlen(&aux[i][1][0])+1);
+				deallocate(aux[i],2);
+			}
+			deallocate(aux,naux);
+		}
+		ndim=0;
+		order=NULL;
+		knots=NULL;
+		nknots=NULL;
+		extents=NULL;
+		periods=NULL;
+		coefficients=NULL;
+		naxes=NULL;
+		strides=NULL;
+		naux=0;
+		aux=NULL;
+	}
+	
 	///Read from a file
 	bool read_fits_core(fitsfile*, const std::string& filePath="");
+	///The part of read_fits_core which can fail with the table half built
+	bool read_fits_core_impl(fitsfile*, const std::string& filePath);
 	
 	///Write to a file
 	void write_fits_core(fitsfile*) const;
